@@ -204,6 +204,13 @@ def _table(S):
         return {"raise": core.exc_class(e)}
 
 
+def _raw(S, name):
+    try:
+        return getattr(S, name)
+    except Exception:
+        return None
+
+
 def snapshot(S):
     snap = {k: _access(S, k) for k in ("results", "time", "shelfTemp", "temp", "iceMassFraction")}
     if getattr(S, "Nrep", 1) > 1:
@@ -232,6 +239,7 @@ def run_real(case):
         return {"raise": core.exc_class(e), "stage": "init", "runs": []}
     const, visf = constants(S)
     obs = {"raise": None, "const": const, "visf": visf, "xi": recorded_xi(), "runs": []}
+    held = []
     for k, prog in enumerate(progs):
         if k > 0:
             try:
@@ -271,7 +279,38 @@ def run_real(case):
             except Exception as e:
                 rec["raise"] = core.exc_class(e)
         rec["snap"] = snapshot(S)
+        # the very objects the accessors handed out after THIS run (no copy) - re-read at the end
+        held.append({nm: _raw(S, nm) for nm in ("time", "shelfTemp", "temp", "iceMassFraction")})
         obs["runs"].append(rec)
+    # a SECOND object of the same configuration (same grid shape) run afterwards in this process
+    if case.get("then_other") is not None:
+        other = dict(case)
+        other.update(case["then_other"])
+        other.pop("runs", None)
+        try:
+            S2 = make_snowing(other, _program(other))
+            with scripted_frand(other.get("Frand")):
+                try:
+                    with warnings.catch_warnings():
+                        warnings.simplefilter("ignore")
+                        S2.run()
+                    obs["other_raise"] = None
+                except Exception as e:
+                    obs["other_raise"] = core.exc_class(e)
+        except Exception as e:
+            obs["other_raise"] = core.exc_class(e)
+    # what a caller who kept the histories of run k sees NOW (after all later runs / the second object)
+    runs_with_snap = [r for r in obs["runs"] if "snap" in r]
+    for rec, h in zip(runs_with_snap, held):
+        changed = []
+        for nm, ref in h.items():
+            first = rec["snap"].get(nm)
+            if ref is None or not isinstance(first, list):
+                continue
+            a, b = np.asarray(ref, dtype=float), np.asarray(first, dtype=float)
+            if a.shape != b.shape or not np.array_equal(a, b, equal_nan=True):
+                changed.append(nm)
+        rec["changed_later"] = changed
     return obs
 
 
@@ -338,7 +377,7 @@ def decode_model(r):
 
 
 RUN_FIELDS = ("dim", "config", "height", "diameter", "yaml", "k_s0", "t_tot", "start", "stop", "rate", "holds",
-              "cnTemp", "Frand", "runs", "Nrep", "how")
+              "cnTemp", "Frand", "runs", "Nrep", "how", "then_other")
 
 
 def source_key(case):
@@ -356,6 +395,7 @@ def source_key(case):
 # cache of real runs (shared by the Snowing properties within one source state)
 # ---------------------------------------------------------------------------
 CACHE_DIR = core.VERIF / ".cache"
+CACHE_MAX_FILES = 600  # about 0.6 GB at the observed average size
 
 
 def run_real_cached(case):
@@ -377,6 +417,10 @@ def run_real_cached(case):
     obs = run_real(case)
     try:
         CACHE_DIR.mkdir(parents=True, exist_ok=True)
+        # bounded also within one source state: beyond CACHE_MAX_FILES observations nothing more is stored
+        # (thorough tiers over many seeds would otherwise accumulate several GB)
+        if sum(1 for _ in os.scandir(CACHE_DIR)) > CACHE_MAX_FILES:
+            return obs
         tmp = CACHE_DIR / (key + ".tmp%d" % os.getpid())
         with gzip.open(tmp, "wt", compresslevel=1) as f:
             json.dump(obs, f)
@@ -510,10 +554,14 @@ def model_2d(drv, case, prog=None, Frand=None, out_stride=10 ** 6):
     import snowing2dutil as s2
 
     prog = prog or _program(case)
+    mi = model_init(case)
+    if mi is not None:
+        return mi
     try:
         S = make_snowing(case, prog)
     except Exception as e:
-        return {"raise": core.exc_class(e), "stage": "init"}
+        # the rule says this case constructs; the model cannot echo the implementation
+        return {"raise": None, "stage": "init", "no_constants": core.exc_class(e)}
     c2 = {"K_shelf": case["k_s0"], "t_tot": prog["t_tot"], "start": prog["start"], "stop": prog["stop"],
           "rate": prog["rate"], "holds": prog.get("holds"), "cn": prog.get("cnTemp"),
           "Frand": Frand if Frand is not None else recorded_frand(0), "outStride": int(out_stride)}
@@ -577,3 +625,53 @@ def cyl_weights(const):
     radius = const["diameter"] / 2
     r = np.linspace(0, radius, 15)
     return wz, simpson_weights(15, radius / 14) * 2 * np.pi * r
+
+
+# ---------------------------------------------------------------------------
+# constructor exceptions: expected ones come from a RULE on the case, never from a second call of the
+# real constructor (audit H1)
+# ---------------------------------------------------------------------------
+def expected_init_error(case):
+    """the exception class `Snowing(...)` / `OperatingConditions(...)` must raise for this case, by the documented
+    rules of the package (None: construction must succeed)"""
+    cfg, dim = case.get("config", "shelf"), case["dim"]
+    if cfg not in ("shelf", "VISF", "jacket"):
+        return "NotImplementedError"
+    if cfg == "VISF" and dim == "0D":
+        return "NotImplementedError"
+    if cfg == "jacket" and dim != "2D":
+        return "NotImplementedError"
+    for pr in programs(case):
+        if pr["rate"] == 0 and pr["start"] != pr["stop"]:
+            return "ValueError"
+        if pr["rate"] == 0 and pr.get("holds"):
+            return "ValueError"
+    return None
+
+
+def init_failures(case, impl, Failure):
+    """construction outcome of the real code against the rule; every other raise is a failure of the property's
+    premise 'the run was made' and is reported"""
+    out = []
+    exp = expected_init_error(case)
+    got = impl.get("raise")
+    if (got or None) != exp:
+        out.append(Failure(clause="complete_or_raise", key=f"unexpected_exception|init|{got}",
+                           detail=f"constructing the Snowing object raised {got} (stage {impl.get('stage')}); by the "
+                                  f"rules of the package this case must {'raise ' + exp if exp else 'construct'}"))
+    for k, run in enumerate(impl.get("runs") or []):
+        if "snap" not in run and run.get("raise"):
+            out.append(Failure(clause="complete_or_raise", key=f"unexpected_exception|{run.get('stage')}|{run['raise']}",
+                               detail=f"preparing run {k} of the object history (stage {run.get('stage')}) raised "
+                                      f"{run['raise']}"))
+    return out
+
+
+def model_init(case):
+    """what the model side says about construction: the expected class by rule, or None (must construct).
+    If the rule says 'constructs' but the real constructor raises, the model has no constants to run on: the
+    mismatch is reported by `compare` (and by `init_failures`)."""
+    exp = expected_init_error(case)
+    if exp:
+        return {"raise": exp, "stage": "init"}
+    return None
